@@ -230,6 +230,8 @@ func (p *Program) verifyFunc(name string, c *FuncContract) (res *FuncResult) {
 			if c.HasMod {
 				ex.frameObligations(fr, st2, c, post)
 			}
+			ex.scopeReturn(fr, st2)
+			ex.scopeResultText(fr, st2, rets)
 			for _, d := range c.GlobalInvs {
 				if g := p.globalByName(d.Name); g != nil {
 					gt := ex.globalTerm(st2, g)
@@ -328,9 +330,22 @@ func (vc *VC) preamble() string {
 		}
 		fmt.Fprintf(&b, "(assert (distinct %s))\n", strings.Join(names, " "))
 	}
-	// uninterpreted spec functions may occur in fold bodies
-	for _, d := range vc.decls {
+	// uninterpreted spec functions and entry-heap components may occur in fold bodies
+	early := func(d string) bool {
 		if strings.HasPrefix(d, "(declare-fun uf_") {
+			return true
+		}
+		for _, fi := range vc.folds {
+			for h := range fi.heaps {
+				if strings.HasPrefix(d, "(declare-const "+h+"_init ") {
+					return true
+				}
+			}
+		}
+		return false
+	}
+	for _, d := range vc.decls {
+		if early(d) {
 			b.WriteString(d)
 			b.WriteString("\n")
 		}
@@ -339,7 +354,7 @@ func (vc *VC) preamble() string {
 		b.WriteString(f)
 	}
 	for _, d := range vc.decls {
-		if strings.HasPrefix(d, "(declare-fun uf_") {
+		if early(d) {
 			continue
 		}
 		b.WriteString(d)
